@@ -518,7 +518,7 @@ func (e *Engine) mapLookup(st *State, m MapRef, k Value, elemT types.Type) (Valu
 	}
 	o := st.obj(m.Obj)
 	for _, en := range o.Ents {
-		c := term.And(en.G, e.valuesEqual(en.K, k))
+		c := st.simp(term.And(en.G, e.valuesEqual(en.K, k)))
 		if c == term.False {
 			continue
 		}
@@ -536,7 +536,7 @@ func (e *Engine) mapUpdate(st *State, m MapRef, k, v Value) {
 	hit := term.False
 	for i := range o.Ents {
 		en := &o.Ents[i]
-		c := term.And(en.G, e.valuesEqual(en.K, k))
+		c := st.simp(term.And(en.G, e.valuesEqual(en.K, k)))
 		if c == term.False {
 			continue
 		}
@@ -559,7 +559,7 @@ func (e *Engine) mapDelete(st *State, m MapRef, k Value) {
 	o := st.objW(m.Obj)
 	out := o.Ents[:0]
 	for _, en := range o.Ents {
-		en.G = term.And(en.G, term.Not(e.valuesEqual(en.K, k)))
+		en.G = st.simp(term.And(en.G, term.Not(e.valuesEqual(en.K, k))))
 		if en.G != term.False {
 			out = append(out, en)
 		}
